@@ -124,6 +124,23 @@ def message(r, rng):
     return m
 
 
+def lines_deep(rng, depth):
+    from . import lines
+    return lines.deep_field_header(rng, depth).hex()
+
+
+def nested_rlp(depth):
+    """RLP of a list nested `depth` levels deep (decodable only by a decoder that can recurse that far)."""
+    inner = b"\xc0"
+    for _ in range(depth):
+        if len(inner) <= 55:
+            inner = bytes([0xc0 + len(inner)]) + inner
+        else:
+            lb = len(inner).to_bytes((len(inner).bit_length() + 7) // 8, "big")
+            inner = bytes([0xf7 + len(lb)]) + lb + inner
+    return inner
+
+
 def blocks_and_brothers(r, advance, rng):
     bl = reqs.blocks(rng, rng.randint(1, 2), advance, bro_counts=None if advance else None)
     raw = [b["raw"].hex() for b in bl]
@@ -133,7 +150,9 @@ def blocks_and_brothers(r, advance, rng):
     blocks = {"ok": raw, "nonlist": rng.choice([raw[0], 5, None, {"0": raw[0]}]), "empty": [],
               "nonstr_elem": raw + [rng.choice([5, None, [raw[0]]])],
               "nonhex": [rng.choice(["zz", raw[0][:-1], "0x" + raw[0]])],
-              "notheader": [rng.choice(["abcdef", "83616263", enc.rlp_encode([b"a"] * 5).hex(), "c0"])]}
+              "notheader": [rng.choice(["abcdef", "83616263", enc.rlp_encode([b"a"] * 5).hex(), "c0",
+                                        nested_rlp(60).hex(), nested_rlp(600).hex(), nested_rlp(1100).hex(),
+                                        nested_rlp(3000).hex(), lines_deep(rng, 1100), lines_deep(rng, 400)])]}
     if bc != "absent":
         out["blocks"] = blocks[bc]
     if not advance:
@@ -147,7 +166,9 @@ def blocks_and_brothers(r, advance, rng):
             "lenmismatch": rng.choice([base + [[]], base[:-1]]),
             "elem_nonlist": first(rng.choice([hdr, 5, None])), "bro_nonstr": first([rng.choice([5, None, [hdr]])]),
             "bro_empty": first([""]), "bro_odd": first(["abc"]), "bro_nonhex": first([rng.choice(["zz", "0xab"])]),
-            "bro_notheader": first([rng.choice(["abcdef", "83616263", enc.rlp_encode([b"a"] * 3).hex()])]),
+            "bro_notheader": first([rng.choice(["abcdef", "83616263", enc.rlp_encode([b"a"] * 3).hex(),
+                                                nested_rlp(600).hex(), nested_rlp(1100).hex(), nested_rlp(3000).hex(),
+                                                lines_deep(rng, 1100)])]),
             "over255": first([hdr] * 256)}
     if brc != "absent":
         out["brothers"] = bros[brc]
